@@ -31,6 +31,7 @@ type TNC struct {
 	out     chan<- string
 	dataOut chan<- []byte
 	dataIn  chan []byte
+	done    chan struct{} // Closed when the TNC is closed. Guards sends on out and dataOut.
 
 	busy bool
 
@@ -283,12 +284,17 @@ func (tnc *TNC) runControlLoop() error {
 	out := make(chan string)
 	dataOut := make(chan []byte)
 
+	done := make(chan struct{})
+
 	tnc.out = out
 	tnc.dataOut = dataOut
+	tnc.done = done
 
 	go func() {
 		for {
 			select {
+			case <-done:
+				return
 			case str, ok := <-out:
 				if !ok {
 					return
@@ -375,8 +381,9 @@ func (tnc *TNC) close() {
 	tnc.ctrl.Close()
 
 	tnc.in.Close() // TODO: This may panic due to the race mentioned above. Consider using a mutex to guard tnc.closed.
-	close(tnc.out)
-	close(tnc.dataOut)
+
+	// out and dataOut are not closed: a concurrent sender would panic.
+	close(tnc.done)
 
 	// no need for a finalizer anymore
 	runtime.SetFinalizer(tnc, nil)
@@ -568,6 +575,18 @@ func (tnc *TNC) setFSKOnly(t bool) error {
 	return tnc.set(cmdFSKOnly, fmt.Sprintf("%t", t))
 }
 
+// send hands a command line over to the goroutine writing to the TNC.
+//
+// It fails if the TNC is closed (before or while the caller is waiting).
+func (tnc *TNC) send(str string) error {
+	select {
+	case tnc.out <- str:
+		return nil
+	case <-tnc.done:
+		return ErrTNCClosed
+	}
+}
+
 // Disconnect gracefully disconnects the active connection or cancels an ongoing connect.
 //
 // The method will block until the TNC is disconnected.
@@ -584,7 +603,9 @@ func (tnc *TNC) Disconnect() error {
 	r := tnc.in.Listen()
 	defer r.Close()
 
-	tnc.out <- fmt.Sprintf("%s", cmdDisconnect)
+	if err := tnc.send(fmt.Sprintf("%s", cmdDisconnect)); err != nil {
+		return err
+	}
 	for msg := range r.Msgs() {
 		if msg.cmd == cmdDisconnected {
 			return nil
@@ -623,7 +644,9 @@ func (tnc *TNC) arqCall(targetcall string, repeat int) error {
 	r := tnc.in.Listen()
 	defer r.Close()
 
-	tnc.out <- fmt.Sprintf("%s %s %d", cmdARQCall, targetcall, repeat)
+	if err := tnc.send(fmt.Sprintf("%s %s %d", cmdARQCall, targetcall, repeat)); err != nil {
+		return err
+	}
 	for msg := range r.Msgs() {
 		switch msg.cmd {
 		case cmdFault:
@@ -648,10 +671,12 @@ func (tnc *TNC) set(cmd command, param interface{}) (err error) {
 	r := tnc.in.Listen()
 	defer r.Close()
 
+	str := string(cmd)
 	if param != nil {
-		tnc.out <- fmt.Sprintf("%s %v", cmd, param)
-	} else {
-		tnc.out <- string(cmd)
+		str = fmt.Sprintf("%s %v", cmd, param)
+	}
+	if err := tnc.send(str); err != nil {
+		return err
 	}
 
 	for msg := range r.Msgs() {
@@ -696,7 +721,9 @@ func (tnc *TNC) get(cmd command) (interface{}, error) {
 	r := tnc.in.Listen()
 	defer r.Close()
 
-	tnc.out <- string(cmd)
+	if err := tnc.send(string(cmd)); err != nil {
+		return nil, err
+	}
 	for msg := range r.Msgs() {
 		switch msg.cmd {
 		case cmd:
